@@ -39,10 +39,36 @@ func VStep(tbl, op int) {
 	bus := vNewBus("bus")
 	vPlace(bus, pre.PC, tbl, op)
 	sb := bus.Fork("spec")
+	bus0 := bus.Fork("bus0")
 	cpu := &CPU{States: pre, Memory: bus, IO: bus, HALT: halt}
 	cpu.Step()
 	o := vSpecStep(pre, sb, tbl, op)
+	if !o.Impl && vSpecSiliconDefined(tbl, op) {
+		// outside the implemented set: "consumed, no effect" or what silicon does
+		sb2 := bus0.Fork("spec2")
+		o2, _ := vSpecStepMode(pre, sb2, tbl, op, true)
+		vAssert("unsupported", vOr(vMatchStep(cpu, halt, bus, sb, &o), vMatchStep(cpu, halt, bus, sb2, &o2)))
+		return
+	}
 	vCompareStep(cpu, halt, bus, sb, &o)
+}
+
+// vMatchStep: the conjunction of everything vCompareStep asserts, as one value
+func vMatchStep(cpu *CPU, halt bool, bus, sb *vBus, o *vSpecOut) bool {
+	w := &o.S
+	m := vAnd(cpu.AF.Hi == w.AF.Hi, (cpu.AF.Lo^w.AF.Lo)&o.FMask == 0)
+	m = vAnd(m, vAnd(cpu.BC == w.BC, vAnd(cpu.DE == w.DE, cpu.HL == w.HL)))
+	m = vAnd(m, vAnd(cpu.Alternate == w.Alternate, vAnd(cpu.IX == w.IX, cpu.IY == w.IY)))
+	m = vAnd(m, vAnd(cpu.SP == w.SP, vAnd(cpu.PC == w.PC, cpu.IR.Hi == w.IR.Hi)))
+	m = vAnd(m, vOr(cpu.IR.Lo == w.IR.Lo, vAnd(o.RAltOK, cpu.IR.Lo == o.RAlt)))
+	m = vAnd(m, vOr(cpu.IFF1 == w.IFF1, vAnd(o.IFF1AltOK, cpu.IFF1 == o.IFF1Alt)))
+	m = vAnd(m, vAnd(cpu.IFF2 == w.IFF2, cpu.IM == w.IM))
+	m = vAnd(m, vOr(cpu.HALT == halt, !cpu.HALT))
+	m = vAnd(m, cpu.Interrupt == nil)
+	probe := vU16("probe")
+	m = vAnd(m, bus.Peek(probe) == sb.Peek(probe))
+	m = vAnd(m, vAnd(bus.Len() == sb.Len(), vTraceMultisetEq(bus, sb)))
+	return m
 }
 
 func vCompareStep(cpu *CPU, halt bool, bus, sb *vBus, o *vSpecOut) {
